@@ -1,6 +1,6 @@
 (** C20 — configured limits are enforced and recover.
     Property theorems only; proofs are in proofs/BreakerProofs.v. *)
-From Verif Require Import Json Breaker BreakerProofs.
+From Verif Require Import Json Outcome State Location Breaker BreakerProofs GateProofs CapacityProofs.
 
 (** Safety, for the code before and after the repair ([v]): from a fresh
     breaker, for every non-decreasing sequence of call instants (calls are
@@ -48,3 +48,18 @@ Theorem pending_le_limit_plus_one : forall es attempts disabled plimit,
   0 <= plimit ->
   ts_waiting (fold_left tstep es (mkT (mkThrottle 0 plimit attempts disabled) 0)) <= plimit + 1.
 Proof. exact pending_le_limit_plus_one_run. Qed.
+
+(** Capacity: an AddFact or AddRule on a location that is at its maximum is
+    refused and changes nothing ... *)
+Theorem refused_add_no_effect : forall (m : string) l c e (k : loc -> loc * outcome string),
+  (m = "AddFact" \/ m = "AddRule") ->
+  nothing_expired l (e_now e) -> at_capacity l = true ->
+  exists err, gated (gates_of m) l c (e_now e) k = (l, Err err).
+Proof. exact add_at_capacity_refused. Qed.
+
+(** ... and a location within its maximum stays within it after any AddFact,
+    whatever the arguments, keys and outcome. *)
+Theorem add_respects_capacity : forall l c e id fact,
+  lcount l <= l_max l -> nothing_expired l (e_now e) ->
+  lcount (fst (loc_add_fact l c e id fact)) <= l_max (fst (loc_add_fact l c e id fact)).
+Proof. exact add_respects_capacity_fact. Qed.
